@@ -175,3 +175,795 @@ def fold_temporaries(tree: ast.Module) -> int:
             if not changed:
                 break
     return total
+
+
+# ----------------------------------------------------------------------------------------------------------------------------
+# `v = C.unwrap(X); assert v is not None`  ->  `v = C.extract(X)`
+
+def checked_unwrap_to_extract(tree: ast.Module) -> int:
+    """the project's `extract` is `unwrap` followed by an assertion that the result is not None (decided by C07's
+    destructuring-raises rule on Pattern.extract itself); the same two steps written out at a call site are read as the call of
+    `extract`, so that rules which know `C.extract(X)` see one spelling.  Only the adjacent pair `v = <C>.unwrap(<X>)` /
+    `assert v is not None[, msg]` with a plain name v."""
+    count = 0
+    defining = {id(n) for f in ast.walk(tree) if isinstance(f, ast.FunctionDef) and f.name == 'extract' for n in ast.walk(f)}
+    for node in ast.walk(tree):
+        if id(node) in defining:
+            continue                                   # the definition of extract itself
+        for fld in ('body', 'orelse', 'finalbody'):
+            blk = getattr(node, fld, None)
+            if not (isinstance(blk, list) and blk and isinstance(blk[0], ast.stmt)):
+                continue
+            i = 0
+            while i + 1 < len(blk):
+                a, chk = blk[i], blk[i + 1]
+                i += 1
+                tgt = a.targets[0] if isinstance(a, ast.Assign) and len(a.targets) == 1 else (a.target if isinstance(a, ast.AnnAssign) else None)
+                val = getattr(a, 'value', None)
+                if not (isinstance(tgt, ast.Name) and isinstance(val, ast.Call) and isinstance(val.func, ast.Attribute) and val.func.attr == 'unwrap'
+                        and isinstance(val.func.value, ast.Name) and len(val.args) == 1 and not val.keywords and isinstance(chk, ast.Assert)):
+                    continue
+                t = chk.test
+                if not (isinstance(t, ast.Compare) and len(t.ops) == 1 and isinstance(t.ops[0], ast.IsNot) and isinstance(t.left, ast.Name)
+                        and t.left.id == tgt.id and isinstance(t.comparators[0], ast.Constant) and t.comparators[0].value is None):
+                    continue
+                val.func.attr = 'extract'
+                del blk[i]
+                count += 1
+    return count
+
+
+# ----------------------------------------------------------------------------------------------------------------------------
+# `for v in S: if v == X: return True` / `return False`  ->  `return X in S`
+
+def search_loop_to_membership(tree: ast.Module) -> int:
+    """a loop that answers True at the first element equal to X and False after the loop is the membership test `X in S` (False /
+    True: `X not in S`); X must not mention the loop variable and the loop must have no else"""
+    count = 0
+    for node in ast.walk(tree):
+        for fld in ('body', 'orelse', 'finalbody'):
+            blk = getattr(node, fld, None)
+            if not (isinstance(blk, list) and blk and isinstance(blk[0], ast.stmt)):
+                continue
+            i = 0
+            while i + 1 < len(blk):
+                lp, ret = blk[i], blk[i + 1]
+                i += 1
+                if not (isinstance(lp, ast.For) and not lp.orelse and isinstance(lp.target, ast.Name) and len(lp.body) == 1
+                        and isinstance(ret, ast.Return) and isinstance(ret.value, ast.Constant) and isinstance(ret.value.value, bool)):
+                    continue
+                iff = lp.body[0]
+                if not (isinstance(iff, ast.If) and not iff.orelse and len(iff.body) == 1 and isinstance(iff.body[0], ast.Return)
+                        and isinstance(iff.body[0].value, ast.Constant) and iff.body[0].value.value is (not ret.value.value)):
+                    continue
+                t = iff.test
+                if not (isinstance(t, ast.Compare) and len(t.ops) == 1 and isinstance(t.ops[0], ast.Eq)):
+                    continue
+                v = lp.target.id
+                sides = [t.left, t.comparators[0]]
+                other = [x for x in sides if not (isinstance(x, ast.Name) and x.id == v)]
+                if len(other) != 1 or any(isinstance(n, ast.Name) and n.id == v for n in ast.walk(other[0])):
+                    continue
+                if any(isinstance(n, (ast.Call, ast.Await, ast.Yield, ast.YieldFrom, ast.NamedExpr)) for n in ast.walk(other[0])):
+                    continue                                   # X is evaluated once by `in`, once per element by the loop
+                found = iff.body[0].value.value
+                test = ast.Compare(left=other[0], ops=[ast.In() if found else ast.NotIn()], comparators=[lp.iter])
+                new = ast.copy_location(ast.Return(value=test), lp)
+                ast.fix_missing_locations(new)
+                blk[i - 1:i + 1] = [new]
+                count += 1
+    return count
+
+
+# ----------------------------------------------------------------------------------------------------------------------------
+# `x = []; for t in IT: [if c:] x.append(E)`  ->  `x = [E for t in IT if c]`
+
+def loop_to_comprehension(tree: ast.Module) -> int:
+    """an empty list followed at once by a loop whose whole body is one (possibly guarded, else-less) append to it is the list
+    comprehension with the same generator, guards and element.  Not when the loop variables are read after the loop (a
+    comprehension does not leak them), when the list occurs in the iterable / guards / element, or when the loop has an else."""
+    count = 0
+    for fn in [x for x in ast.walk(tree) if isinstance(x, (ast.FunctionDef, ast.AsyncFunctionDef))]:
+        for node in ast.walk(fn):
+            for fld in ('body', 'orelse', 'finalbody'):
+                blk = getattr(node, fld, None)
+                if not (isinstance(blk, list) and blk and isinstance(blk[0], ast.stmt)):
+                    continue
+                i = 0
+                while i + 1 < len(blk):
+                    a, lp = blk[i], blk[i + 1]
+                    i += 1
+                    tgt = a.targets[0] if isinstance(a, ast.Assign) and len(a.targets) == 1 else (a.target if isinstance(a, ast.AnnAssign) else None)
+                    val = getattr(a, 'value', None)
+                    if not (isinstance(tgt, ast.Name) and isinstance(val, ast.List) and not val.elts and isinstance(lp, ast.For) and not lp.orelse):
+                        continue
+                    x = tgt.id
+                    conds = []
+                    body = lp.body
+                    while len(body) == 1 and isinstance(body[0], ast.If) and not body[0].orelse:
+                        conds.append(body[0].test)
+                        body = body[0].body
+                    if not (len(body) == 1 and isinstance(body[0], ast.Expr) and isinstance(body[0].value, ast.Call)):
+                        continue
+                    c = body[0].value
+                    if not (isinstance(c.func, ast.Attribute) and c.func.attr == 'append' and isinstance(c.func.value, ast.Name)
+                            and c.func.value.id == x and len(c.args) == 1 and not c.keywords and not isinstance(c.args[0], ast.Starred)):
+                        continue
+                    parts = [lp.iter, c.args[0]] + conds
+                    if any(isinstance(n, ast.Name) and n.id == x for p_ in parts for n in ast.walk(p_)):
+                        continue
+                    if any(isinstance(n, (ast.Yield, ast.YieldFrom, ast.Await, ast.NamedExpr)) for p_ in parts for n in ast.walk(p_)):
+                        continue
+                    loop_vars = {n.id for n in ast.walk(lp.target) if isinstance(n, ast.Name)}
+                    if not all(isinstance(n, (ast.Name, ast.Tuple, ast.List, ast.Starred)) or isinstance(n, ast.expr_context) for n in ast.walk(lp.target)):
+                        continue
+                    inside = {id(n) for n in ast.walk(lp)}
+                    if any(isinstance(n, ast.Name) and n.id in loop_vars and id(n) not in inside and n.lineno >= lp.lineno for n in ast.walk(fn)):
+                        continue                                   # a loop variable is used after (or rebound later in) the function
+                    comp = ast.ListComp(elt=c.args[0], generators=[ast.comprehension(target=lp.target, iter=lp.iter, ifs=conds, is_async=0)])
+                    a.value = ast.copy_location(comp, lp)
+                    del blk[i]
+                    ast.fix_missing_locations(a)
+                    count += 1
+    return count
+
+
+# ----------------------------------------------------------------------------------------------------------------------------
+# `while True: v = E; if v is None: break; ..`  ->  `while (v := E) is not None: ..`
+
+def while_true_to_test(tree: ast.Module) -> int:
+    """a loop that computes a value first and leaves when it fails a test is the loop with that test as its condition"""
+    count = 0
+    for w in [n for n in ast.walk(tree) if isinstance(n, ast.While)]:
+        if not (isinstance(w.test, ast.Constant) and w.test.value is True and not w.orelse and len(w.body) >= 2):
+            continue
+        a, g = w.body[0], w.body[1]
+        if not (isinstance(a, ast.Assign) and len(a.targets) == 1 and isinstance(a.targets[0], ast.Name)):
+            continue
+        v = a.targets[0].id
+        if not (isinstance(g, ast.If) and not g.orelse and len(g.body) == 1 and isinstance(g.body[0], ast.Break)):
+            continue
+        t = g.test
+        uses = [n for n in ast.walk(t) if isinstance(n, ast.Name) and n.id == v]
+        if len(uses) != 1:
+            continue
+        walrus = ast.NamedExpr(target=ast.Name(id=v, ctx=ast.Store()), value=a.value)
+
+        class R(ast.NodeTransformer):
+            def visit_Name(self, n):
+                return walrus if n is uses[0] else n
+        t2 = R().visit(t)
+        if isinstance(t2, ast.Compare) and len(t2.ops) == 1 and isinstance(t2.ops[0], (ast.Is, ast.IsNot, ast.Eq, ast.NotEq)):
+            flip = {ast.Is: ast.IsNot, ast.IsNot: ast.Is, ast.Eq: ast.NotEq, ast.NotEq: ast.Eq}[type(t2.ops[0])]
+            new_test = ast.Compare(left=t2.left, ops=[flip()], comparators=t2.comparators)
+        elif isinstance(t2, ast.UnaryOp) and isinstance(t2.op, ast.Not):
+            new_test = t2.operand
+        else:
+            new_test = ast.UnaryOp(op=ast.Not(), operand=t2)
+        w.test = ast.copy_location(new_test, w.test)
+        w.body = w.body[2:] or [ast.copy_location(ast.Pass(), w)]
+        ast.fix_missing_locations(w)
+        count += 1
+    return count
+
+
+# ----------------------------------------------------------------------------------------------------------------------------
+# nested procedures called as statements -> their bodies in place
+
+def _contains_return(st) -> bool:
+    stack = [st]
+    while stack:
+        n = stack.pop()
+        if isinstance(n, ast.Return):
+            return True
+        for c in ast.iter_child_nodes(n):
+            if not isinstance(c, (ast.FunctionDef, ast.AsyncFunctionDef, ast.Lambda, ast.ClassDef)):
+                stack.append(c)
+    return False
+
+
+def _eliminate_returns(stmts):
+    """the statement list with every bare `return` removed by restructuring: what follows an `if` that may return moves into its
+    branches.  None when a return sits inside a loop / try / with / match (not restructured)."""
+    import copy
+    out = []
+    for i, st in enumerate(stmts):
+        if isinstance(st, ast.Return):
+            return out
+        if _contains_return(st):
+            if not isinstance(st, ast.If):
+                return None
+            rest = stmts[i + 1:]
+            b = _eliminate_returns(list(st.body) + copy.deepcopy(rest))
+            o = _eliminate_returns(list(st.orelse) + copy.deepcopy(rest))
+            if b is None or o is None:
+                return None
+            out.append(ast.copy_location(ast.If(test=st.test, body=b or [ast.copy_location(ast.Pass(), st)], orelse=o), st))
+            return out
+        out.append(st)
+    return out
+
+
+def inline_local_procedures(tree: ast.Module) -> int:
+    """def f(..):
+           def step(x): <body that returns no value>
+           ... step(E) ...              every mention of `step` is a call statement with positional arguments
+
+    is f with `x = E; <body>` in place of each call (early `return`s restructured into if / else), and without the nested def.
+    Names the procedure binds that are also used by f are renamed apart.  Functions that return a value, are passed around, recurse,
+    or return from inside a loop stay as they are.  -> number of calls inlined"""
+    import copy
+    count = 0
+    for fn in [x for x in ast.walk(tree) if isinstance(x, (ast.FunctionDef, ast.AsyncFunctionDef))]:
+        changed = True
+        rounds = 0
+        while changed and rounds < 6:
+            changed = False
+            rounds += 1
+            for g in [x for x in fn.body if isinstance(x, ast.FunctionDef)]:
+                a = g.args
+                if g.decorator_list or a.vararg or a.kwarg or a.kwonlyargs or a.defaults or a.posonlyargs:
+                    continue
+                inside_g = {id(y) for y in ast.walk(g)}
+                if any(isinstance(n, (ast.Yield, ast.YieldFrom, ast.Await)) for n in ast.walk(g)):
+                    continue
+                if any(isinstance(n, ast.Name) and n.id == g.name for n in ast.walk(g)):
+                    continue
+                rets = [n for n in ast.walk(g) if isinstance(n, ast.Return)]
+                inner_defs = [n for n in ast.walk(g) if n is not g and isinstance(n, (ast.FunctionDef, ast.Lambda, ast.ClassDef))]
+                own_rets = [r for r in rets if not any(any(r is y for y in ast.walk(d)) for d in inner_defs)]
+                if any(r.value is not None and not (isinstance(r.value, ast.Constant) and r.value.value is None) for r in own_rets):
+                    continue
+                body0 = [st for st in g.body if not (isinstance(st, ast.Expr) and isinstance(st.value, ast.Constant))]
+                body0 = [st for st in body0 if not isinstance(st, (ast.Nonlocal, ast.Global))]
+                declared = {nm for n in ast.walk(g) if isinstance(n, (ast.Nonlocal, ast.Global)) for nm in n.names}
+                flat = _eliminate_returns(copy.deepcopy(body0))
+                if flat is None:
+                    continue
+                mentions = [n for n in ast.walk(fn) if isinstance(n, ast.Name) and n.id == g.name and id(n) not in inside_g]
+                # every mention must be the callee of a call statement
+                sites = []
+                for node in ast.walk(fn):
+                    if id(node) in inside_g:
+                        continue
+                    for fld in ('body', 'orelse', 'finalbody'):
+                        blk = getattr(node, fld, None)
+                        if isinstance(blk, list):
+                            for st in blk:
+                                if isinstance(st, ast.Expr) and isinstance(st.value, ast.Call) and any(st.value.func is m for m in mentions):
+                                    sites.append((node, blk, st))
+                    if isinstance(node, ast.Try):
+                        for h in node.handlers:
+                            for st in h.body:
+                                if isinstance(st, ast.Expr) and isinstance(st.value, ast.Call) and any(st.value.func is m for m in mentions):
+                                    sites.append((h, h.body, st))
+                    if isinstance(node, ast.Match):
+                        for c in node.cases:
+                            for st in c.body:
+                                if isinstance(st, ast.Expr) and isinstance(st.value, ast.Call) and any(st.value.func is m for m in mentions):
+                                    sites.append((c, c.body, st))
+                if not mentions or len(sites) != len(mentions):
+                    continue
+                if any(st.value.keywords or any(isinstance(x, ast.Starred) for x in st.value.args) or len(st.value.args) != len(a.args)
+                       for _n, _b, st in sites):
+                    continue
+                # a site inside another nested function: fine unless the procedure assigns variables of f (they would become that
+                # function's locals)
+                others = [x for x in ast.walk(fn) if isinstance(x, (ast.FunctionDef, ast.Lambda)) and x is not fn and x is not g and id(x) not in inside_g]
+                in_other = any(any(st is y for y in ast.walk(o)) for o in others for _n, _b, st in sites)
+                bound = {n.id for n in ast.walk(g) if isinstance(n, ast.Name) and isinstance(n.ctx, (ast.Store, ast.Del))} | {x.arg for x in a.args}
+                if in_other and declared:
+                    continue
+                outside = {n.id for n in ast.walk(fn) if isinstance(n, ast.Name) and id(n) not in inside_g}
+                outside |= {x.arg for x in fn.args.posonlyargs + fn.args.args + fn.args.kwonlyargs}
+                rename = {nm: f'{nm}__{g.name}' for nm in (bound - declared) & outside}
+
+                class R(ast.NodeTransformer):
+                    def visit_Name(self, n):
+                        if n.id in rename:
+                            n.id = rename[n.id]
+                        return n
+
+                    def visit_FunctionDef(self, n):
+                        return n
+
+                    visit_Lambda = visit_ClassDef = visit_FunctionDef
+
+                    def visit_Nonlocal(self, n):
+                        return ast.copy_location(ast.Pass(), n)
+
+                    visit_Global = visit_Nonlocal
+                stored_in_g = {n.id for n in ast.walk(g) if isinstance(n, ast.Name) and isinstance(n.ctx, (ast.Store, ast.Del))}
+
+                def simple(e):
+                    return isinstance(e, ast.Name) or isinstance(e, ast.Attribute) and simple(e.value)
+                for _node, blk, st in sites:
+                    # a parameter that is only read, bound to a plain name / attribute chain the body does not rebind: the argument itself
+                    direct = {}
+                    for x, v in zip(a.args, st.value.args):
+                        if x.arg not in stored_in_g and simple(v) and not ({n.id for n in ast.walk(v) if isinstance(n, ast.Name)} & stored_in_g):
+                            direct[x.arg] = v
+
+                    class D(ast.NodeTransformer):
+                        def visit_Name(self, n):
+                            if n.id in direct and isinstance(n.ctx, ast.Load):
+                                return ast.copy_location(copy.deepcopy(direct[n.id]), n)
+                            return n
+
+                        def visit_FunctionDef(self, n):
+                            return n
+
+                        visit_Lambda = visit_ClassDef = visit_FunctionDef
+                    full = dict(rename)
+                    for k in direct:
+                        rename.pop(k, None)               # (R reads `rename`) parameters replaced by their arguments keep their names until then
+                    body = [D().visit(R().visit(x)) for x in copy.deepcopy(flat)]
+                    rename.clear()
+                    rename.update(full)
+                    binds = [ast.copy_location(ast.Assign(targets=[ast.Name(id=rename.get(x.arg, x.arg), ctx=ast.Store())], value=v), st)
+                             for x, v in zip(a.args, st.value.args) if x.arg not in direct]
+                    i = next(k for k, y in enumerate(blk) if y is st)
+                    blk[i:i + 1] = (binds + body) or [ast.copy_location(ast.Pass(), st)]
+                    count += 1
+                fn.body = [x for x in fn.body if x is not g]
+                ast.fix_missing_locations(fn)
+                changed = True
+                break
+    return count
+
+
+# ----------------------------------------------------------------------------------------------------------------------------
+# `x = helper(args)` -> the helper's body computing x in place (a copy of the function; used by rules that relate two values built
+# in one function and must see through a split into helper functions)
+
+def _assign_returns(stmts, target: str):
+    """the statement list with `return E` replaced by `target = E` (what follows an `if` that returns moves into its branches);
+    None when a return sits inside a loop / try / with / match"""
+    import copy
+    out = []
+    for i, st in enumerate(stmts):
+        if isinstance(st, ast.Return):
+            val = st.value if st.value is not None else ast.Constant(None)
+            out.append(ast.copy_location(ast.Assign(targets=[ast.Name(id=target, ctx=ast.Store())], value=val), st))
+            return out
+        if _contains_return(st):
+            if not isinstance(st, ast.If):
+                return None
+            rest = stmts[i + 1:]
+            b = _assign_returns(list(st.body) + copy.deepcopy(rest), target)
+            o = _assign_returns(list(st.orelse) + copy.deepcopy(rest), target)
+            if b is None or o is None:
+                return None
+            out.append(ast.copy_location(ast.If(test=st.test, body=b or [ast.copy_location(ast.Pass(), st)], orelse=o), st))
+            return out
+        out.append(st)
+    return out
+
+
+def expand_assigned_calls(fn: ast.FunctionDef, lookup, rounds: int = 2) -> ast.FunctionDef:
+    """a copy of `fn` in which every statement `x = h(args)` whose callee `lookup(name)` resolves to a plain function is replaced by
+    h's body with its parameters bound and its `return E` turned into `x = E`.  Locals of h are renamed apart."""
+    import copy
+    g0 = copy.deepcopy(fn)
+    # calls of such helpers nested in a statement (`return N(a, h1(x), h2(y))`) are first bound to temporaries, left to right
+    k = [0]
+    for holder in ast.walk(g0):
+        for fld in ('body', 'orelse', 'finalbody'):
+            blk = getattr(holder, fld, None)
+            if not (isinstance(blk, list) and blk and isinstance(blk[0], ast.stmt)):
+                continue
+            j = 0
+            while j < len(blk):
+                st = blk[j]
+                j += 1
+                if not isinstance(st, (ast.Return, ast.Assign, ast.AnnAssign, ast.Expr)) or getattr(st, 'value', None) is None:
+                    continue
+                top = st.value
+                pre = []
+
+                class H(ast.NodeTransformer):
+                    def visit_Call(self, n):
+                        self.generic_visit(n)
+                        if n is not top and isinstance(n.func, ast.Name) and lookup(n.func.id) is not None and lookup(n.func.id) is not fn:
+                            tmp = f'h{k[0]}_'
+                            k[0] += 1
+                            pre.append(ast.copy_location(ast.Assign(targets=[ast.Name(id=tmp, ctx=ast.Store())], value=n), st))
+                            return ast.copy_location(ast.Name(id=tmp, ctx=ast.Load()), n)
+                        return n
+
+                    def visit_Lambda(self, n):
+                        return n
+
+                    visit_ListComp = visit_SetComp = visit_DictComp = visit_GeneratorExp = visit_IfExp = visit_BoolOp = visit_Lambda
+                st.value = H().visit(st.value)
+                if pre:
+                    blk[j - 1:j - 1] = pre
+                    j += len(pre)
+    ast.fix_missing_locations(g0)
+    for _round in range(rounds):
+        changed = False
+        for holder in ast.walk(g0):
+            for fld in ('body', 'orelse', 'finalbody'):
+                blk = getattr(holder, fld, None)
+                if not (isinstance(blk, list) and blk and isinstance(blk[0], ast.stmt)):
+                    continue
+                i = 0
+                while i < len(blk):
+                    st = blk[i]
+                    i += 1
+                    tgt = st.targets[0] if isinstance(st, ast.Assign) and len(st.targets) == 1 else (st.target if isinstance(st, ast.AnnAssign) else None)
+                    call = getattr(st, 'value', None)
+                    if not (isinstance(tgt, ast.Name) and isinstance(call, ast.Call) and isinstance(call.func, ast.Name)):
+                        continue
+                    h = lookup(call.func.id)
+                    if h is None or h is fn or h.decorator_list or h.args.vararg or h.args.kwarg or h.args.posonlyargs:
+                        continue
+                    if any(isinstance(n, (ast.Yield, ast.YieldFrom, ast.Await)) for n in ast.walk(h)):
+                        continue
+                    if any(isinstance(n, ast.Name) and n.id == h.name for n in ast.walk(h)):
+                        continue
+                    if call.keywords and any(k.arg is None for k in call.keywords) or any(isinstance(a, ast.Starred) for a in call.args):
+                        continue
+                    params = [a.arg for a in h.args.args]
+                    bound = {}
+                    for pn, a in zip(params, call.args):
+                        bound[pn] = a
+                    for k in call.keywords:
+                        bound[k.arg] = k.value
+                    nd = len(h.args.defaults)
+                    for pn, dflt in zip(params[len(params) - nd:], h.args.defaults):
+                        bound.setdefault(pn, dflt)
+                    if set(bound) != set(params) or len(call.args) > len(params):
+                        continue
+                    body0 = [x for x in h.body if not (isinstance(x, ast.Expr) and isinstance(x.value, ast.Constant))]
+                    flat = _assign_returns(copy.deepcopy(body0), tgt.id)
+                    if flat is None:
+                        continue
+                    stored = {n.id for n in ast.walk(h) if isinstance(n, ast.Name) and isinstance(n.ctx, (ast.Store, ast.Del))}
+                    outside = {n.id for n in ast.walk(g0) if isinstance(n, ast.Name)} | {a.arg for a in g0.args.args}
+
+                    def simple(e):
+                        return isinstance(e, (ast.Name, ast.Constant)) or isinstance(e, ast.Attribute) and simple(e.value)
+                    direct = {pn: v for pn, v in bound.items() if pn not in stored and simple(v)
+                              and not ({n.id for n in ast.walk(v) if isinstance(n, ast.Name)} & stored)}
+                    rename = {nm: f'{nm}__{h.name}' for nm in (stored | set(params)) - set(direct) if nm in outside and nm != tgt.id}
+
+                    class R(ast.NodeTransformer):
+                        def visit_Name(self, n):
+                            if n.id in direct and isinstance(n.ctx, ast.Load):
+                                return ast.copy_location(copy.deepcopy(direct[n.id]), n)
+                            if n.id in rename:
+                                n.id = rename[n.id]
+                            return n
+
+                        def visit_FunctionDef(self, n):
+                            return n
+
+                        visit_Lambda = visit_ClassDef = visit_FunctionDef
+                    # the result variable of the caller must not be renamed / captured: its assignments were just created
+                    body = [R().visit(x) for x in flat]
+                    binds = [ast.copy_location(ast.Assign(targets=[ast.Name(id=rename.get(pn, pn), ctx=ast.Store())], value=v), st)
+                             for pn, v in bound.items() if pn not in direct]
+                    blk[i - 1:i] = binds + body
+                    i += len(binds) + len(body) - 1
+                    changed = True
+        ast.fix_missing_locations(g0)
+        if not changed:
+            break
+    return g0
+
+
+# ----------------------------------------------------------------------------------------------------------------------------
+# an accessor's body written out in a sibling method -> the accessor
+
+def outline_accessors(tree: ast.Module) -> int:
+    """class C:
+           def m(self): return <call expression over self only>          (no decorator, no other parameter)
+           def other(self, ..): ... <the same expression> ...
+
+    the expression inside the other methods of C is `self.m()` by the definition of m (C has no subclass in the module that overrides m):
+    it is rewritten so, and the rules that know `self.m()` (Instantiate.simplify) see one spelling whether the project calls the
+    accessor or writes its body out.  -> number of occurrences rewritten"""
+    count = 0
+    classes = [n for n in ast.walk(tree) if isinstance(n, ast.ClassDef)]
+    for cls in classes:
+        overridden = set()
+        for other in classes:
+            if other is not cls and any(isinstance(b, ast.Name) and b.id == cls.name for b in other.bases):
+                overridden |= {f.name for f in other.body if isinstance(f, ast.FunctionDef)}
+        for m in [f for f in cls.body if isinstance(f, ast.FunctionDef)]:
+            body = [st for st in m.body if not (isinstance(st, ast.Expr) and isinstance(st.value, ast.Constant))]
+            if m.decorator_list or m.name in overridden or m.name.startswith('__') or len(body) != 1 or not isinstance(body[0], ast.Return) \
+                    or not isinstance(body[0].value, ast.Call):
+                continue
+            a = m.args
+            if len(a.args) != 1 or a.posonlyargs or a.kwonlyargs or a.vararg or a.kwarg:
+                continue
+            selfname = a.args[0].arg
+            E = body[0].value
+            names = {n.id for n in ast.walk(E) if isinstance(n, ast.Name)}
+            if names != {selfname}:
+                continue
+            if isinstance(E.func, ast.Attribute) and isinstance(E.func.value, ast.Name):
+                continue                       # `return self.other(..)`: an alias of another method, nothing to outline
+            if any(isinstance(n, ast.Call) and isinstance(n.func, ast.Attribute) and isinstance(n.func.value, ast.Name)
+                   and n.func.value.id == selfname and n.func.attr == m.name for n in ast.walk(E)):
+                continue
+            dump = ast.dump(E)
+
+            class R(ast.NodeTransformer):
+                def __init__(self, sname):
+                    self.sname = sname
+                    self.n = 0
+
+                def visit_Call(self, n):
+                    if ast.dump(n) == dump.replace(f"id='{selfname}'", f"id='{self.sname}'"):
+                        self.n += 1
+                        return ast.copy_location(ast.Call(func=ast.Attribute(value=ast.Name(id=self.sname, ctx=ast.Load()), attr=m.name,
+                                                                             ctx=ast.Load()), args=[], keywords=[]), n)
+                    return self.generic_visit(n)
+            for other in [f for f in cls.body if isinstance(f, ast.FunctionDef) and f is not m]:
+                if not other.args.args or any(ast.unparse(d) in ('staticmethod', 'classmethod') for d in other.decorator_list):
+                    continue
+                sname = other.args.args[0].arg
+                if any(isinstance(n, ast.Name) and n.id == sname and isinstance(n.ctx, ast.Store) for n in ast.walk(other)):
+                    continue
+                r = R(sname)
+                other.body = [r.visit(st) for st in other.body]
+                if r.n:
+                    ast.fix_missing_locations(other)
+                    count += r.n
+    return count
+
+
+# ----------------------------------------------------------------------------------------------------------------------------
+# try: D[k] except KeyError  ->  if k in D
+
+def eafp_to_lbyl(tree: ast.Module) -> int:
+    """        try:                                   if k in D:
+                   <one simple statement using D[k]>      <that statement>
+               except KeyError:                        else:
+                   <handler>                               <handler>
+
+    when D and k are plain names / attribute chains (evaluating them raises nothing), D[k] is the only subscript, call-free
+    statement body, the handler does not bind the exception and there is no else / finally: the lookup is the only possible source
+    of the KeyError.  (A mapping with __missing__ would differ; the tables concerned are plain dicts.)  -> number rewritten"""
+    count = 0
+
+    def simple(e):
+        return isinstance(e, ast.Name) or isinstance(e, ast.Attribute) and simple(e.value)
+
+    for node in ast.walk(tree):
+        for fld in ('body', 'orelse', 'finalbody'):
+            blk = getattr(node, fld, None)
+            if not (isinstance(blk, list) and blk and isinstance(blk[0], ast.stmt)):
+                continue
+            for i, st in enumerate(blk):
+                if not (isinstance(st, ast.Try) and len(st.body) == 1 and len(st.handlers) == 1 and not st.orelse and not st.finalbody):
+                    continue
+                h = st.handlers[0]
+                if not (isinstance(h.type, ast.Name) and h.type.id == 'KeyError' and h.name is None):
+                    continue
+                b = st.body[0]
+                if not isinstance(b, (ast.Return, ast.Assign, ast.AnnAssign, ast.Expr)):
+                    continue
+                subs = [n for n in ast.walk(b) if isinstance(n, ast.Subscript) and isinstance(n.ctx, ast.Load)]
+                if len(subs) != 1 or not simple(subs[0].value) or not simple(subs[0].slice):
+                    continue
+                if any(isinstance(n, (ast.Call, ast.Await, ast.Yield, ast.YieldFrom)) for n in ast.walk(b)):
+                    continue
+                if any(isinstance(n, ast.Subscript) and isinstance(n.ctx, ast.Store) for n in ast.walk(b)):
+                    continue
+                test = ast.Compare(left=subs[0].slice, ops=[ast.In()], comparators=[subs[0].value])
+                new = ast.copy_location(ast.If(test=test, body=[b], orelse=list(h.body)), st)
+                ast.fix_missing_locations(new)
+                blk[i] = new
+                count += 1
+    return count
+
+
+# ----------------------------------------------------------------------------------------------------------------------------
+# draining a private copy -> iteration
+
+_MUTATORS = ('append', 'pop', 'remove', 'clear', 'extend', 'insert', 'sort', 'reverse', 'add', 'discard', 'update')
+
+
+def poploop_to_for(tree: ast.Module) -> int:
+    """        v = list(E)                 (also E[:], E.copy(), [*E])
+               while v:                    (also len(v) > 0, len(v))
+                   .. v.pop() ..           the only other mention of v, in the first (simple) statement of the body
+
+    visits the elements of E last to first (`v.pop(0)`: first to last) and nothing else sees the copy: it is
+    `for x in reversed(E)` / `for x in E`.  Rewritten in place so that loop rules see one spelling.  Not applied when the body
+    stores to E or calls a mutating method on it (then the copy was taken for a reason).  -> number of loops rewritten"""
+    count = 0
+    for fn in [x for x in ast.walk(tree) if isinstance(x, (ast.FunctionDef, ast.AsyncFunctionDef))]:
+        for node in ast.walk(fn):
+            for fld in ('body', 'orelse', 'finalbody'):
+                blk = getattr(node, fld, None)
+                if not (isinstance(blk, list) and blk and isinstance(blk[0], ast.stmt)):
+                    continue
+                i = 0
+                while i + 1 < len(blk):
+                    a, w = blk[i], blk[i + 1]
+                    i += 1
+                    tgt = a.targets[0] if isinstance(a, ast.Assign) and len(a.targets) == 1 else (a.target if isinstance(a, ast.AnnAssign) else None)
+                    val = getattr(a, 'value', None)
+                    if not (isinstance(tgt, ast.Name) and val is not None and isinstance(w, ast.While) and not w.orelse and w.body):
+                        continue
+                    v = tgt.id
+                    src = None
+                    if isinstance(val, ast.Call) and isinstance(val.func, ast.Name) and val.func.id == 'list' and len(val.args) == 1 and not val.keywords:
+                        src = val.args[0]
+                    elif isinstance(val, ast.Subscript) and isinstance(val.slice, ast.Slice) and val.slice.lower is None \
+                            and val.slice.upper is None and val.slice.step is None:
+                        src = val.value
+                    elif isinstance(val, ast.Call) and isinstance(val.func, ast.Attribute) and val.func.attr == 'copy' and not val.args:
+                        src = val.func.value
+                    elif isinstance(val, ast.List) and len(val.elts) == 1 and isinstance(val.elts[0], ast.Starred):
+                        src = val.elts[0].value
+                    if src is None or not isinstance(src, (ast.Name, ast.Attribute)):
+                        continue
+                    t = w.test
+                    if isinstance(t, ast.Compare) and len(t.ops) == 1 and isinstance(t.ops[0], ast.Gt) \
+                            and isinstance(t.comparators[0], ast.Constant) and t.comparators[0].value == 0:
+                        t = t.left
+                    if isinstance(t, ast.Call) and isinstance(t.func, ast.Name) and t.func.id == 'len' and len(t.args) == 1:
+                        t = t.args[0]
+                    if not (isinstance(t, ast.Name) and t.id == v):
+                        continue
+                    first = w.body[0]
+                    if not isinstance(first, (ast.Assign, ast.AnnAssign, ast.Expr)):
+                        continue
+                    pops = [n for n in ast.walk(first) if isinstance(n, ast.Call) and isinstance(n.func, ast.Attribute) and n.func.attr == 'pop'
+                            and isinstance(n.func.value, ast.Name) and n.func.value.id == v]
+                    if len(pops) != 1:
+                        continue
+                    pop = pops[0]
+                    if pop.keywords or len(pop.args) > 1 or pop.args and not (
+                            isinstance(pop.args[0], ast.Constant) and pop.args[0].value in (0, -1)
+                            or isinstance(pop.args[0], ast.UnaryOp) and ast.unparse(pop.args[0]) == '-1'):
+                        continue
+                    from_front = bool(pop.args) and ast.unparse(pop.args[0]) == '0'
+                    mentions = sum(1 for n in ast.walk(fn) if isinstance(n, ast.Name) and n.id == v)
+                    if mentions != 3:                       # the binding, the loop test, the pop
+                        continue
+                    if any(isinstance(n, (ast.Lambda, ast.IfExp, ast.BoolOp, ast.ListComp, ast.SetComp, ast.DictComp, ast.GeneratorExp))
+                           and any(x is pop for x in ast.walk(n)) for n in ast.walk(first)):
+                        continue                            # the pop must be evaluated exactly once per iteration
+                    stxt = ast.unparse(src)
+                    touched = False
+                    for st in w.body:
+                        for n in ast.walk(st):
+                            if isinstance(n, (ast.Name, ast.Attribute, ast.Subscript)) and isinstance(getattr(n, 'ctx', None), (ast.Store, ast.Del)) \
+                                    and ast.unparse(n).startswith(stxt):
+                                touched = True
+                            if isinstance(n, ast.Call) and isinstance(n.func, ast.Attribute) and n.func.attr in _MUTATORS \
+                                    and ast.unparse(n.func.value) == stxt:
+                                touched = True
+                    if touched:
+                        continue
+                    item = v + '_item'
+                    body = list(w.body)
+                    if isinstance(first, ast.Assign) and first.value is pop and len(first.targets) == 1 and isinstance(first.targets[0], ast.Name):
+                        item = first.targets[0].id
+                        body = body[1:] or [ast.copy_location(ast.Pass(), first)]
+                    else:
+                        class R(ast.NodeTransformer):
+                            def visit_Call(self, n):
+                                if n is pop:
+                                    return ast.copy_location(ast.Name(id=item, ctx=ast.Load()), n)
+                                return self.generic_visit(n)
+                        body[0] = R().visit(first)
+                    it = src if from_front else ast.Call(func=ast.Name(id='reversed', ctx=ast.Load()), args=[src], keywords=[])
+                    loop = ast.copy_location(ast.For(target=ast.Name(id=item, ctx=ast.Store()), iter=it, body=body, orelse=[]), w)
+                    blk[i - 1:i + 1] = [loop]
+                    ast.fix_missing_locations(loop)
+                    count += 1
+    return count
+
+
+# ----------------------------------------------------------------------------------------------------------------------------
+# explicit work list -> structural recursion
+
+def worklist_to_recursion(tree: ast.Module) -> list:
+    """A boolean method written as a loop over an explicit work list
+
+        todo = [self]
+        while todo:
+            p = todo.pop()            (or `match todo.pop():`)
+            ... return False ...      the node refutes the answer
+            ... todo.append(child) / todo.extend((a, b)) ...
+        return True
+
+    computes the conjunction, over all nodes reached, of "this node does not refute".  That is the recursive method
+
+        ... return False ...
+        ... if not child.m(args): return False ...
+        return True
+
+    The rewrite is applied in place (rules then see the recursive form); it is exact unless the loop body returns the FINAL answer
+    itself (`return True` inside the loop answers for every node still on the list): such early accepts are returned as
+    [(class name, method name, node)] and left untranslated."""
+    early = []
+    for cls in [n for n in ast.walk(tree) if isinstance(n, ast.ClassDef)]:
+        for fn in [n for n in cls.body if isinstance(n, ast.FunctionDef)]:
+            body = [st for st in fn.body if not (isinstance(st, ast.Expr) and isinstance(st.value, ast.Constant))]
+            if len(body) != 3 or not fn.args.args:
+                continue
+            init, loop, final = body
+            selfname = fn.args.args[0].arg
+            tgt = init.targets[0] if isinstance(init, ast.Assign) and len(init.targets) == 1 else (init.target if isinstance(init, ast.AnnAssign) else None)
+            val = getattr(init, 'value', None)
+            if not (isinstance(tgt, ast.Name) and isinstance(val, (ast.List, ast.Tuple)) and len(val.elts) == 1
+                    and isinstance(val.elts[0], ast.Name) and val.elts[0].id == selfname):
+                continue
+            W = tgt.id
+            if not (isinstance(loop, ast.While) and isinstance(loop.test, ast.Name) and loop.test.id == W and not loop.orelse):
+                continue
+            if not (isinstance(final, ast.Return) and isinstance(final.value, ast.Constant) and isinstance(final.value.value, bool)):
+                continue
+            ANSWER = final.value.value
+            pops = [n for st in loop.body for n in ast.walk(st) if isinstance(n, ast.Call) and isinstance(n.func, ast.Attribute)
+                    and n.func.attr == 'pop' and isinstance(n.func.value, ast.Name) and n.func.value.id == W]
+            if len(pops) != 1 or pops[0].args and not (isinstance(pops[0].args[0], ast.Constant) and pops[0].args[0].value in (0, -1)):
+                continue
+            params = [ast.Name(id=a.arg, ctx=ast.Load()) for a in fn.args.args[1:]]
+            bad = []
+
+            class T(ast.NodeTransformer):
+                def visit_Call(self, n):
+                    if n is pops[0]:
+                        return ast.copy_location(ast.Name(id=selfname, ctx=ast.Load()), n)
+                    return self.generic_visit(n)
+
+                def visit_FunctionDef(self, n):
+                    return n
+
+                visit_Lambda = visit_FunctionDef
+
+                def visit_Return(self, n):
+                    if isinstance(n.value, ast.Constant) and n.value.value is ANSWER:
+                        bad.append(n)
+                    return n
+
+                def visit_Continue(self, n):
+                    return ast.copy_location(ast.Return(value=ast.Constant(ANSWER)), n)
+
+                def visit_Break(self, n):
+                    bad.append(n)
+                    return n
+
+                def visit_Expr(self, n):
+                    c = n.value
+                    if isinstance(c, ast.Call) and isinstance(c.func, ast.Attribute) and isinstance(c.func.value, ast.Name) and c.func.value.id == W:
+                        if c.func.attr == 'append' and len(c.args) == 1:
+                            kids = [c.args[0]]
+                        elif c.func.attr == 'extend' and len(c.args) == 1 and isinstance(c.args[0], (ast.Tuple, ast.List)):
+                            kids = list(c.args[0].elts)
+                        else:
+                            bad.append(n)
+                            return n
+                        out = []
+                        for k in kids:
+                            k = self.visit(k)
+                            call = ast.Call(func=ast.Attribute(value=k, attr=fn.name, ctx=ast.Load()), args=list(params), keywords=[])
+                            test = call if ANSWER is False else ast.UnaryOp(op=ast.Not(), operand=call)
+                            out.append(ast.copy_location(ast.If(test=test, body=[ast.Return(value=ast.Constant(not ANSWER))], orelse=[]), n))
+                        return out
+                    return self.generic_visit(n)
+            import copy
+            new_body = []
+            for st in copy.deepcopy(loop.body) if False else loop.body:
+                r = T().visit(st)
+                new_body.extend(r if isinstance(r, list) else [r])
+            other_uses = [n for st in new_body for n in ast.walk(st) if isinstance(n, ast.Name) and n.id == W]
+            if other_uses:
+                continue
+            if bad:
+                early.extend((cls.name, fn.name, b) for b in bad if isinstance(b, ast.Return))
+                if any(not isinstance(b, ast.Return) for b in bad):
+                    continue
+            fn.body = new_body + [final]
+            ast.fix_missing_locations(fn)
+    return early
